@@ -72,7 +72,7 @@ def main(which="C01"):
     else:
         ch = EffectChecker(w)
         viol = ch.run()
-        for o in ("effect[calls-allowlisted]", "effect[pyvalue-use]", "post[node-classes]", "post[default-raises]"):
+        for o in ("effect[calls-allowlisted]", "effect[pyvalue-use]", "effect[returns-values]", "post[node-classes]", "post[default-raises]"):
             ob(f"C01/Mitochondria._compute_node/{o}", viol.get(o, []))
         # vacuity: the checker must have seen calls, value uses and the dispatch
         if ch.checked["calls"] < 5 or ch.checked["branches"] < 5:
